@@ -824,6 +824,11 @@ def _lifecycle(rng):
             body.append({"op": "submit", "ex": "x", "task": {"k": "nested", "kind": "plain", "kw": {"max_workers": 1, "timeout": None}, "sub": [{"k": "ok", "x": 1}], "then": "wait", "shutdown": True}})
         else:
             body.append({"op": "submit", "ex": "x", "task": benign_task(rng, slow_ok=False)})
+    big = how in ("broken", "killed") and rng.random() < 0.5
+    if big:
+        # more call items in flight than the call queue's pipe can hold (64 KiB) when the workers go away
+        for _ in range(rng.randint(3, 6)):
+            body.append({"op": "submit", "ex": "x", "task": {"k": "sleep", "d": 0.2, "arg": ["blob", 60000]}})
     if how == "broken":
         body.append({"op": "submit", "ex": "x", "task": t_breaking(rng)})
     if how == "killed":
@@ -850,7 +855,7 @@ def _lifecycle(rng):
         elif how == "del":
             body += [{"op": "del", "ex": "x"}, {"op": "join_mgr", "ex": "x"}]
     body.append({"op": "forget", "ex": ["x"]})
-    return body, "%s/%s" % (kind, how)
+    return body, "%s/%s%s" % (kind, how, "+big" if big else "")
 
 
 def g_life(rng):
